@@ -2,6 +2,7 @@
 from contracts import c01_lp, c02_rename  # noqa
 from contracts import c01_populate as POP
 from contracts import c02_rxn_add_metabolites as RAM
+from contracts import c02_add_reactions as AR
 from props._generic import run_property, replay_with_driver
 
 LEVEL = "other"
@@ -57,8 +58,9 @@ def fallback(key, case, rec):
 
 def run(rep):
     run_property(rep, KEYS, fallback=fallback, more=[(RENAME_KEYS, c02_rename.HOOKS), ([POP.KEY], POP.HOOKS),
-                                                        (RAM.KEYS, RAM.HOOKS)],
+                                                        (RAM.KEYS, RAM.HOOKS), (AR.KEYS, AR.HOOKS)],
                  lemmas=lambda: POP.lemmas() + [o for o in RAM.lemmas() if "rows" in o.name or "undo" in o.name], explanation=(
+        "Model.add_reactions (no context) is proved to call _populate_solver exactly once, with exactly the reactions that joined, in the exit state (every joining reaction linked, appended and found under its identifier - the cobra-side precondition of _populate_solver's contract), and not at all when it raises. "
         "Deductive (kernel): Reaction.update_variable_bounds is proved, for all extended-real bounds with lb<=ub, lb<+inf, ub>-inf, "
         "to give the forward/reverse variable pair bounds such that the net flux f-r ranges over exactly [lb,ub] (both inclusions, "
         "the statement's wording), to follow the documented three-branch map, to keep both variables non-negative and to touch no "
